@@ -188,6 +188,19 @@ func genC03(rng *rand.Rand) SrvCase {
 			c.Ops = append(c.Ops, SOp{Kind: "rename", Dir: "/", Name: "x", Dir2: "/", Name2: "t"})
 		}
 	}
+	if rng.Intn(8) == 0 {
+		// the verifier remembered for a name is the one of the create that made the CURRENT file: exclusive create,
+		// remove, exclusive create with another verifier, then the first verifier again (must be refused) and the
+		// second again (a retransmission: accepted)
+		a, b := verf(), verf()
+		for bytes.Equal(a, b) {
+			b = verf()
+		}
+		c.Ops = append(c.Ops, SOp{Kind: "remove", Dir: "/", Name: "t"},
+			SOp{Kind: "create", Dir: "/", Name: "t", How: 2, Verf: a}, SOp{Kind: "remove", Dir: "/", Name: "t"},
+			SOp{Kind: "create", Dir: "/", Name: "t", How: 2, Verf: b}, SOp{Kind: "create", Dir: "/", Name: "t", How: 2, Verf: a},
+			SOp{Kind: "create", Dir: "/", Name: "t", How: 2, Verf: b})
+	}
 	return c
 }
 
